@@ -71,6 +71,11 @@ def run(repo, rep, tier):
     from . import c05 as _c05
     L.borrow(repo, rep, "R08.2", "C05", _c05.brackets,
              ("bracket-present", "restore-condition", "marker"), minimum=2)
+    # the items of "x a; y b" style repeat clauses are split as written
+    # (C09 owns the element details)
+    from . import c09 as _c09
+    L.borrow(repo, rep, "R08.1", "C09", _c09.element_details,
+             ("multipart-complete",))
     L.state_rule(repo, rep)
 
 
